@@ -285,36 +285,120 @@ func (m *Model) FieldKey(v *types.Var) string {
 
 var fieldOwnerCache = map[*Model]map[*types.Var]string{}
 
+// PinnedFieldTypes maps "Owner.field" of the pinned data model to the field's type string. It is used to
+// resolve a renamed field: a field whose name is not pinned is identified with the pinned field of the same
+// struct that is missing, if their types match and the match is unique.
+var PinnedFieldTypes map[string]string
+
 func (m *Model) fieldOwners() map[*types.Var]string {
 	if c, ok := fieldOwnerCache[m]; ok {
 		return c
 	}
 	c := map[*types.Var]string{}
-	addScope := func(pkg *types.Package) {
-		sc := pkg.Scope()
-		for _, name := range sc.Names() {
-			tn, ok := sc.Lookup(name).(*types.TypeName)
-			if !ok || tn.IsAlias() {
-				continue
+	pkg := m.Prog.Ecs.Types
+	qual := func(pk *types.Package) string {
+		if pk == pkg {
+			return ""
+		}
+		return pk.Name()
+	}
+	sc := pkg.Scope()
+	for _, name := range sc.Names() {
+		tn, ok := sc.Lookup(name).(*types.TypeName)
+		if !ok || tn.IsAlias() {
+			continue
+		}
+		n, ok := tn.Type().(*types.Named)
+		if !ok {
+			continue
+		}
+		st, ok := n.Underlying().(*types.Struct)
+		if !ok {
+			continue
+		}
+		actual := map[string]*types.Var{}
+		index := map[string]int{}
+		for i := 0; i < st.NumFields(); i++ {
+			actual[st.Field(i).Name()] = st.Field(i).Origin()
+			index[st.Field(i).Name()] = i
+		}
+		pinType := func(k string) string {
+			v := PinnedFieldTypes[k]
+			if i := strings.IndexByte(v, ':'); i >= 0 {
+				return v[i+1:]
 			}
-			n, ok := tn.Type().(*types.Named)
-			if !ok {
-				continue
+			return v
+		}
+		pinIndex := func(k string) int {
+			v := PinnedFieldTypes[k]
+			if i := strings.IndexByte(v, ':'); i >= 0 {
+				n := 0
+				for _, ch := range v[:i] {
+					n = n*10 + int(ch-'0')
+				}
+				return n
 			}
-			st, ok := n.Underlying().(*types.Struct)
-			if !ok {
-				continue
+			return -1
+		}
+		// pinned fields of this owner that are missing, and actual fields that are not pinned
+		var missing []string
+		for k := range PinnedFieldTypes {
+			if strings.HasPrefix(k, name+".") {
+				if _, ok := actual[strings.TrimPrefix(k, name+".")]; !ok {
+					missing = append(missing, k)
+				}
 			}
-			for i := 0; i < st.NumFields(); i++ {
-				c[st.Field(i).Origin()] = name + "." + st.Field(i).Name()
+		}
+		alias := map[string]string{} // actual field name -> pinned key
+		if len(missing) > 0 {
+			for fname, fv := range actual {
+				if _, pinned := PinnedFieldTypes[name+"."+fname]; pinned {
+					continue
+				}
+				ts := types.TypeString(fv.Type(), qual)
+				var cands []string
+				for _, mk := range missing {
+					if pinType(mk) == ts {
+						cands = append(cands, mk)
+					}
+				}
+				// several renamed fields of the same type: the declaration position decides
+				if len(cands) > 1 {
+					var same []string
+					for _, mk := range cands {
+						if pinIndex(mk) == index[fname] {
+							same = append(same, mk)
+						}
+					}
+					if len(same) == 1 {
+						alias[fname] = same[0]
+						continue
+					}
+				}
+				// unique in both directions
+				others := 0
+				for f2, v2 := range actual {
+					if _, pinned := PinnedFieldTypes[name+"."+f2]; !pinned && types.TypeString(v2.Type(), qual) == ts {
+						others++
+					}
+				}
+				if len(cands) == 1 && others == 1 {
+					alias[fname] = cands[0]
+				}
+			}
+		}
+		for fname, fv := range actual {
+			if k, ok := alias[fname]; ok {
+				c[fv] = k
+			} else {
+				c[fv] = name + "." + fname
 			}
 		}
 	}
-	addScope(m.Prog.Ecs.Types)
 	if m.Prog.Stats != nil {
-		sc := m.Prog.Stats.Types.Scope()
-		for _, name := range sc.Names() {
-			tn, ok := sc.Lookup(name).(*types.TypeName)
+		ssc := m.Prog.Stats.Types.Scope()
+		for _, name := range ssc.Names() {
+			tn, ok := ssc.Lookup(name).(*types.TypeName)
 			if !ok {
 				continue
 			}
@@ -327,6 +411,28 @@ func (m *Model) fieldOwners() map[*types.Var]string {
 	}
 	fieldOwnerCache[m] = c
 	return c
+}
+
+// AllFieldKeys returns the keys of all struct fields of package ecs.
+func (m *Model) AllFieldKeys() []string {
+	var out []string
+	for v, k := range m.fieldOwners() {
+		if v.Pkg() == m.Prog.Ecs.Types {
+			out = append(out, k)
+		}
+	}
+	sort.Strings(out)
+	return out
+}
+
+// FieldByKey returns the field variable whose (possibly aliased) key is "Owner.field", or nil.
+func (m *Model) FieldByKey(key string) *types.Var {
+	for v, k := range m.fieldOwners() {
+		if k == key {
+			return v
+		}
+	}
+	return nil
 }
 
 // ExprString renders an expression canonically (parens and conversions to integer types stripped).
